@@ -14,7 +14,7 @@ RULE = ("case = one generated terminating TinyRV0 program (dense RAW/WAW hazards
         "distinct_nontrivial = distinct (program hash) with >= 1 taken branch or >= 1 load-after-store")
 ASSUMPTIONS = [
   "programs end in a spin loop (bne to itself); completion = expected number of proc2mngr messages within dyn_insts*(latency+2)*40/(1-stall)+3000 cycles (bounded progress)",
-  "only aligned word accesses inside the 1MB space; xcel CSRs are not generated (NullXcel)",
+  "only aligned word accesses inside the 1MB space; the accelerator is the null accelerator of the example (one register behind CSRs 0x7E0-0x7FF)",
   "machine words come from the harness's own encoder (vlib/rv0ref.encode), cross-checked against the repo's assembler at shard start",
 ]
 
@@ -71,8 +71,14 @@ def gen_block(rng, n, allow_branch=True):
       out.append(("csrr", rng.choice(WORK + [0]), rv0ref.MNGR2PROC))
       if rng.random() < 0.4:
         out.append(("csrr", rng.choice(WORK), rv0ref.MNGR2PROC))
-    elif r < 0.88:
+    elif r < 0.84:
       out.append(("csrw", rv0ref.PROC2MNGR, rng.choice(WORK + [0])))
+    elif r < 0.88:
+      # accelerator registers 0x7E0 .. 0x7FF (the null accelerator keeps ONE value behind all of them): write one, read another
+      xa = lambda: 0x7E0 + rng.choice([0, 31, 31, 1, 30, rng.randrange(32)])
+      out.append(("csrw", xa(), rng.choice(WORK)))
+      if rng.random() < 0.7: out.append(gen_alu(rng))
+      out.append(("csrr", rng.choice(WORK), xa()))
     elif allow_branch:
       k = rng.randrange(1, 5)
       shadow = []
